@@ -262,6 +262,8 @@ def check_parsers(chk):
                 got = ('raise', sig.cls)
             if got == ('value', want) and (want is None or isinstance(got[1], float)):
                 continue
+            if got[0] == 'value' and isinstance(got[1], Sym):
+                raise Unrecognised('C13.N', f'value_parse_number({text[:30]!r}) evaluates to the unmodelled value {got[1]!r}', vmod.rel)
             concrete_ok = False
             chk.bad('C13.N', vmod, 'value_parse_number', f'value_parse_number({text[:30]!r}) -> {got[1]!r}' if got[0] == 'value' else f'value_parse_number({text[:30]!r}) raises {got[1]}',
                     f'evaluation on concrete text: value_parse_number({text[:30]!r}) ' + (f'raises {got[1]}' if got[0] == 'raise' else f'returns {got[1]!r}') +
